@@ -68,6 +68,7 @@ pub struct Log {
     pub max_request: usize,
     pub step_idx: usize,
     pub faults_fired: u64,
+    pub vectored_reads: u64,
     pub parked: Option<Waker>,
     /// (offset, requested, delivered) for the first calls, for witnesses
     pub trace: Vec<(usize, usize, isize)>,
@@ -203,6 +204,44 @@ impl Read for Scripted {
             Next::Pending(_) => unreachable!(),
         }
     }
+    /// native vectored read (as sockets, files and BufReader have): one scripted step fills the buffers in order,
+    /// so a fragment boundary can fall anywhere inside any of them
+    fn read_vectored(&mut self, bufs: &mut [io::IoSliceMut<'_>]) -> io::Result<usize> {
+        let want: usize = bufs.iter().map(|b| b.len()).sum();
+        if want == 0 {
+            return Ok(0);
+        }
+        match self.next(want, false) {
+            Next::Deliver(0) => Ok(0),
+            Next::Deliver(n) => Ok(self.deliver_vectored(bufs, n)),
+            Next::Interrupted => Err(io::Error::new(ErrorKind::Interrupted, "scripted interrupt")),
+            Next::Fail(k) => Err(io::Error::new(k, "scripted fault")),
+            Next::Pending(_) => unreachable!(),
+        }
+    }
+}
+
+impl Scripted {
+    fn deliver_vectored(&mut self, bufs: &mut [io::IoSliceMut<'_>], n: usize) -> usize {
+        let mut l = self.shared.0.lock().unwrap();
+        let p = l.pos;
+        let mut done = 0;
+        for b in bufs.iter_mut() {
+            if done == n {
+                break;
+            }
+            let k = b.len().min(n - done);
+            b[..k].copy_from_slice(&self.data[p + done..p + done + k]);
+            done += k;
+        }
+        l.pos += n;
+        l.vectored_reads += 1;
+        if l.trace.len() < 64 {
+            let req: usize = bufs.iter().map(|b| b.len()).sum();
+            l.trace.push((p, req, n as isize));
+        }
+        n
+    }
 }
 
 impl AsyncRead for Scripted {
@@ -210,6 +249,32 @@ impl AsyncRead for Scripted {
         match self.next(buf.len(), true) {
             Next::Deliver(0) => Poll::Ready(Ok(0)),
             Next::Deliver(n) => Poll::Ready(Ok(self.deliver(buf, n))),
+            Next::Fail(k) => Poll::Ready(Err(io::Error::new(k, "scripted fault"))),
+            Next::Pending(deferred) => {
+                if !deferred {
+                    cx.waker().wake_by_ref();
+                } else if self.plan.thread_wake {
+                    let w = cx.waker().clone();
+                    std::thread::spawn(move || {
+                        std::thread::yield_now();
+                        w.wake();
+                    });
+                } else {
+                    self.shared.0.lock().unwrap().parked = Some(cx.waker().clone());
+                }
+                Poll::Pending
+            }
+            Next::Interrupted => unreachable!(),
+        }
+    }
+    fn poll_read_vectored(mut self: Pin<&mut Self>, cx: &mut Context<'_>, bufs: &mut [io::IoSliceMut<'_>]) -> Poll<io::Result<usize>> {
+        let want: usize = bufs.iter().map(|b| b.len()).sum();
+        if want == 0 {
+            return Poll::Ready(Ok(0));
+        }
+        match self.next(want, true) {
+            Next::Deliver(0) => Poll::Ready(Ok(0)),
+            Next::Deliver(n) => Poll::Ready(Ok(self.deliver_vectored(bufs, n))),
             Next::Fail(k) => Poll::Ready(Err(io::Error::new(k, "scripted fault"))),
             Next::Pending(deferred) => {
                 if !deferred {
